@@ -271,6 +271,37 @@ def _history(args):
             N.Ctx.log = saved
             if stop:
                 break
+        elif r < 0.94 and names is not None:
+            # ---- resolve an existing path / rename what it led to (a sibling may take over the old name) / resolve again
+            lab = N.label
+            start = rnd.choice(labels)
+            comps, cur = [], objs[start]
+            while cur.children and len(comps) < 3 and (not comps or rnd.random() < 0.7):
+                cur = rnd.choice(cur.children)
+                comps.append(names[lab(cur)])
+            if not comps:
+                continue
+            ic, relax = rnd.random() < 0.3, rnd.random() < 0.3
+            path = "/".join(comps)
+            saved = N.Ctx.log
+            N.Ctx.log = None
+            for phase in ("before", "after"):
+                snap = N.snapshot()
+                ev = {"id": "%s.%d.%s" % (hid, step, phase), "par": snap[0], "ch": snap[1], "names": {l: list(v) for l, v in names.items()}, "s": start,
+                      "cs": [list(c) for c in comps], "ic": ic, "q": "get", "relax": relax,
+                      "res": resolver_replay.outcome(lambda: resolvers[(ic, relax)].get(objs[start], path), N.label, payload=True)}
+                resolver_events.append(ev)
+                if phase == "before":
+                    victim = ev["res"]["val"][0] if ev["res"]["val"] else lab(cur)
+                    old = names[victim]
+                    sibs = [lab(x) for x in objs[victim].siblings]
+                    names[victim] = rnd.choice([n for n in NAMEPOOL if n != old])
+                    objs[victim].name = names[victim]
+                    if sibs and rnd.random() < 0.6:
+                        heir = rnd.choice(sibs)
+                        names[heir] = old
+                        objs[heir].name = old
+            N.Ctx.log = saved
         else:
             # ---- a query on the live objects (half of the time: an earlier query again, which exposes stale caches)
             q = rnd.choice(("nav", "nav", "common", "iters", "iters", "iters", "walk", "find", "findall", "sweep") + (("byattr", "byattr") if names is not None else ()))
